@@ -138,6 +138,12 @@ def c03(ctx):
 def c04(ctx):
     """order / directionality sign convention (bivariate part; multivariate part in the session engine)"""
     _run_sync(ctx, ["order"], "order / directionality scans = pairwise definition; swap negates")
+    q = ctx.tier == QUICK
+    dfns = ["order_profile", "order", "dir_matrix", "dir_values"]
+    _multi(ctx, dict(N=3, IdxMode='"all"', Sample=5 if q else 10), dfns, ["Antisymmetric", "SynfireFromMatrix", "PooledEvents"],
+           ["multi_abs", "dir_rel"], "multivariate order / directionality: every ordered index selection")
+    _multi(ctx, dict(N=4, IdxMode='"all"', Sample=2 if q else 4, TAU4=4, MRTS4=6), dfns, ["Antisymmetric", "SynfireFromMatrix"],
+           ["multi_abs", "dir_rel"], "N = 4")
     ctx.assumptions += ["integer spike times, MRTS and max_tau on the quarter grid",
                         "the compiled configuration executes the .pyx sources by transliteration (harness/pyxshim.py)"]
     return ctx.finish(rule="every ordered pair of trains x MRTS x max_tau; a case is one TLC terminal state; "
@@ -188,6 +194,11 @@ def c08(ctx):
                 dict(TS=-2, TE=7, MaxSp=3, RISet="{FALSE, TRUE}", _mrtsq=[0, 6], _tauq=[0, 6], _shiftsp=[0, 6], _scales=[2, 5])]
     _run_rel(ctx, ["ShiftInv", "ScaleInv", "MirrorSym"], "rel_c08", cfgs,
              "definitions commute with shift / scale / mirror of the time axis")
+    q = ctx.tier == QUICK
+    tfns = ["isi_profile", "spike_profile", "sync_profile", "order_profile", "isi_distance", "spike_distance", "sync",
+            "order", "isi_matrix", "sync_matrix", "dir_matrix", "dir_values"]
+    _multi(ctx, dict(N=3, IdxMode='"none"', Sample=6 if q else 12, IvCodes="{0, 206}", MRTS4=6, TAU4=4), tfns, [],
+           ["multi_transform"], "lists of trains under shift / scale / mirror (multivariate forms)")
     ctx.assumptions += ["integer shifts and scale factors on the spec side; the code is additionally run with dyadic factors 1/2, 1/4 and a shift of 1/2 (exact in floats)"]
     return ctx.finish(rule="every ordered pair of trains x keywords x {2 shifts, scale, 1/2, 1/4, shift 1/2, mirror}; "
                            "one case = one TLC state of Relations")
@@ -203,6 +214,13 @@ def c15(ctx):
                 dict(TS=-2, TE=7, MaxSp=3, RISet="{FALSE, TRUE}", _mrtsq=[0, 3, 8, 12, 40], _tauq=[0, 4])]
     _run_rel(ctx, ["ZeroIsPlain", "Monotone", "BelowAllIsNoOp"], "rel_c15", cfgs,
              "definitions: MRTS=0 is the plain measure, values monotone in MRTS, no-op below all ISIs")
+    q = ctx.tier == QUICK
+    mfns = ["isi_profile", "spike_profile", "sync_profile", "isi_distance", "spike_distance", "sync", "isi_matrix",
+            "spike_matrix", "sync_matrix", "order", "dir_matrix", "dir_values", "filter"]
+    _multi(ctx, dict(N=3, IdxMode='"none"', Sample=6 if q else 12), mfns, [], ["multi_auto"],
+           "lists: default_thresh^2 = pooled mean square of the spec; 'auto' = explicit threshold; monotone in MRTS")
+    _multi(ctx, dict(N=3, IdxMode='"pairs"', Sample=4 if q else 8, TE=5), mfns[:9], [], ["multi_auto"],
+           "index selections: the pool is the whole list that is handed over")
     ctx.assumptions += ["the irrational automatic threshold is compared as a double with sqrt of the exact pooled mean square"]
     return ctx.finish(rule="every ordered pair of trains x ordered pairs MRTS1 <= MRTS2 from the configured set; "
                            "one case = one TLC state of Relations")
@@ -370,6 +388,147 @@ def c11(ctx):
                         "smoothing: unit-contribution definition checked against the transcribed loop for k = 0, 1, 2"]
     return ctx.finish(rule="every heap transition of discrete functions + every (function, query); "
                            "distinct = (operation / query, branch, shape) classes")
+
+
+MULTI_BASE = dict(TS=0, TE=4, MaxSp=2, N=3, MRTS4=0, TAU4=0, RIFlag="FALSE", IdxMode='"none"', IvCodes="{0}",
+                  ThrCodes="{12}", Sample=0, PoolMode='"all"')
+
+
+def _multi(ctx, cfg, fns, invs, checks, what, backends=("py", "shim"), chunk=300):
+    c = dict(MULTI_BASE)
+    c.update(cfg)
+    c["FnSet"] = "{" + ", ".join('"%s"' % f for f in fns) + "}"
+    c = _neg(c)
+    res = run_tlc("Multi", c, invs + ["WellFormed", "Export"], workers=16, timeout=6000,
+                  seed=(ctx.seed or 1) if c.get("Sample") else None)
+    ctx.add_tlc(res, what, exhaustive=not c.get("Sample"))
+    if res.violated:
+        return []
+    ex = res.exports
+    seen = set()
+    for r in ex:
+        key = (r["call"]["fn"], len(r["call"]["idx"]), r["call"]["iv"] != 0)
+        if key not in seen:
+            seen.add(key)
+            ctx.sample(r, limit=5)
+        ctx.count_path("%s/%s/%s/%s" % (r["call"]["fn"], r["call"]["idx"], r["call"]["iv"], [len(t) for t in r["tr"]]))
+    for ck in checks:
+        replay.run(ctx, ck, ex, backends=backends, chunk=chunk)
+    return ex
+
+
+def c05(ctx):
+    """every scalar measure equals the average of its profile over the same interval"""
+    fns = ["isi_distance", "spike_distance", "sync", "order"]
+    q = ctx.tier == QUICK
+    runs = [dict(N=3, TE=4, MaxSp=2, IvCodes="{0, 105, 208, 307}", Sample=0 if not q else 8),
+            dict(N=2, TE=4, MaxSp=3, IvCodes="{0, 3, 204, 508, 8}", IdxMode='"none"', MRTS4=6, TAU4=4, RIFlag="TRUE"),
+            dict(N=4, TE=4, MaxSp=2, IvCodes="{0, 206}", Sample=4 if q else 7, MRTS4=8)]
+    if not q:
+        runs += [dict(N=3, TS=-2, TE=3, MaxSp=2, IvCodes="{0, 109, 305}", Sample=9, MRTS4=6, TAU4=6, RIFlag="TRUE", IdxMode='"all"')]
+    for r in runs:
+        _multi(ctx, r, fns, ["RouteSEqRouteP"], ["multi_avg"], "scalar route = average of the profile route")
+    ctx.assumptions += ["code-vs-code: the scalar returned by the distance function against avrg(interval) of the profile returned "
+                        "by the profile function, both backends; the SPIKE-Sync = 1 convention is checked absolutely"]
+    return ctx.finish(rule="lists of N trains x measure x averaging interval (None and sub-intervals on the half grid); "
+                           "one case = one TLC state of Multi")
+
+
+def c06(ctx):
+    """multivariate = all-pairs aggregate; list order irrelevant; matrices"""
+    q = ctx.tier == QUICK
+    prof = ["isi_profile", "spike_profile", "sync_profile", "isi_distance", "spike_distance", "sync"]
+    mats = ["isi_matrix", "spike_matrix", "sync_matrix"]
+    _multi(ctx, dict(N=3, Sample=0 if not q else 9), prof, ["PointwiseMean", "PooledEvents", "PermInvariant"],
+           ["multi_abs", "multi_perm"], "multivariate profile = pointwise mean / pooled events; permutation invariant")
+    _multi(ctx, dict(N=3, Sample=0 if not q else 9, IvCodes="{0, 206}"), mats, ["MatrixIsBivariate"],
+           ["multi_abs", "multi_perm"], "matrices contain the bivariate values")
+    _multi(ctx, dict(N=4, Sample=4 if q else 6, MRTS4=6, TAU4=4, RIFlag="TRUE"), prof + mats,
+           ["PointwiseMean", "PooledEvents", "MatrixIsBivariate"], ["multi_abs", "multi_perm"],
+           "N = 4 (tail branches of the adds, recursive halving of 6 pairs)")
+    if not q:
+        _multi(ctx, dict(N=3, TS=-2, TE=3, MaxSp=3, Sample=8, MRTS4=10, TAU4=6), prof + mats,
+               ["PointwiseMean", "PooledEvents", "MatrixIsBivariate"], ["multi_abs", "multi_perm"], "second origin, 3 spikes")
+        _multi(ctx, dict(N=5, TE=4, MaxSp=2, Sample=3), ["isi_profile", "sync_profile", "isi_distance", "sync"],
+               ["PointwiseMean", "PooledEvents"], ["multi_abs", "multi_perm"], "N = 5")
+    return ctx.finish(rule="lists of N trains (empty and repeated trains included) x entry point; "
+                           "one case = one TLC state of Multi; every permutation of the list (N <= 3) / 6 of 24 (N = 4)")
+
+
+def c14(ctx):
+    """all call forms and index selections agree"""
+    q = ctx.tier == QUICK
+    fns = ["isi_profile", "spike_profile", "sync_profile", "order_profile", "isi_distance", "spike_distance", "sync",
+           "order", "isi_matrix", "spike_matrix", "sync_matrix", "dir_matrix", "dir_values"]
+    _multi(ctx, dict(N=3, IdxMode='"all"', Sample=5 if q else 10, IvCodes="{0, 206}"), fns, [], ["multi_forms", "multi_abs"],
+           "every ordered index selection of size >= 2")
+    _multi(ctx, dict(N=4, IdxMode='"all"', Sample=2 if q else 4, MRTS4=6, TAU4=4, RIFlag="TRUE"), fns, [],
+           ["multi_forms", "multi_abs"], "N = 4: 60 ordered selections")
+    ctx.assumptions += ["the expected value of f(list, indices=idx) is computed by the spec on the selected sub-list in the "
+                        "given order; the forms are compared with each other on the code"]
+    return ctx.finish(rule="lists x every ordered subset of positions (size >= 2) x entry point x call form "
+                           "(indices list / numpy indices / sub-list / *args / two arguments)")
+
+
+def c17(ctx):
+    """the SPIKE-Sync filter keeps exactly the spikes above threshold"""
+    q = ctx.tier == QUICK
+    _multi(ctx, dict(N=3, ThrCodes="{1, 12, 11, 14, 34}", Sample=0 if not q else 9), ["filter"],
+           ["FilterPartition", "FilterEqualsProfile"], ["multi_abs", "filter_rel"], "N = 3, thresholds 0, 1/2, 1, 1/4, 3/4")
+    _multi(ctx, dict(N=4, ThrCodes="{13, 23, 12, 16}", Sample=4 if q else 6, TAU4=4, MRTS4=6), ["filter"],
+           ["FilterPartition", "FilterEqualsProfile"], ["multi_abs", "filter_rel"], "N = 4, thresholds k/3 hit exactly")
+    _multi(ctx, dict(N=2, MaxSp=3, ThrCodes="{1, 12, 11}", TE=5), ["filter"],
+           ["FilterPartition", "FilterEqualsProfile"], ["multi_abs", "filter_rel"], "N = 2")
+    return ctx.finish(rule="lists x thresholds (k/(N-1) exactly and mid-points); kept / removed arrays compared exactly")
+
+
+def c13(ctx):
+    """inputs are normalised before use and never modified"""
+    q = ctx.tier == QUICK
+    runs = [(dict(VLo=0, VHi=6, MaxLen=3, N=2, EdgeCodes="{105, 205, 104}", Eps=1, Sample=4 if q else 20), None),
+            (dict(VLo=0, VHi=5, MaxLen=2, N=3, EdgeCodes="{104, 204, 15}", Eps=1, Sample=3 if q else 8), None),
+            # the 1e-6 slack: grid unit 4e-7 s, so 2 units are inside the slack and 3 units outside
+            (dict(VLo=0, VHi=8, MaxLen=2, N=2, EdgeCodes="{305, 306}", Eps=3, Sample=6 if q else 30), 4e-7)]
+    for c, unit in runs:
+        res = run_tlc("Reconcile", c, ["ReconcileDef", "Idempotent", "OrderIrrelevant", "Export"], workers=16, timeout=3000,
+                      seed=ctx.seed or 1)
+        ctx.add_tlc(res, "reconcile = normal form (common interval, strictly increasing, exactly the distinct inputs inside)",
+                    exhaustive=False)
+        if res.violated:
+            continue
+        ex = res.exports
+        if unit:
+            for r in ex:
+                r["_unit"] = unit
+        ctx.sample(ex[len(ex) // 2])
+        for r in ex:
+            ctx.count_path("/".join("%d:%d" % (len(m["sp"]), len(set(m["sp"]))) for m in r["inp"]) + ("u" if unit else ""))
+        replay.run(ctx, "reconcile", ex, chunk=100)
+    ctx.assumptions += ["messy trains: arbitrary sequences (order, repetitions, values outside the edges) with per-train edges; "
+                        "train 1 exhaustive, the others from a seeded random subset",
+                        "the slack is probed 20% inside and 20% outside 1e-6, never on the boundary"]
+    return ctx.finish(rule="messy lists; reconcile result compared exactly with the spec's normal form; every public measure on "
+                           "messy input vs on the normal form with Reconcile=False; input snapshots before/after every call")
+
+
+ALL_FNS = ["isi_profile", "spike_profile", "sync_profile", "order_profile", "isi_distance", "spike_distance", "sync",
+           "order", "isi_matrix", "spike_matrix", "sync_matrix", "dir_matrix", "dir_values", "filter"]
+
+
+def c18(ctx):
+    """every valid input yields a finite, well-formed result without error"""
+    q = ctx.tier == QUICK
+    runs = [dict(N=2, PoolMode='"deg"', IvCodes="{0, 105, 4}"),
+            dict(N=3, PoolMode='"deg"', IvCodes="{0, 206}", Sample=0 if not q else 5),
+            dict(N=3, PoolMode='"deg"', MRTS4=6, TAU4=4, RIFlag="TRUE", Sample=0 if not q else 5),
+            dict(N=4, PoolMode='"deg"', Sample=3 if q else 6, IdxMode='"none"'),
+            dict(N=3, MaxSp=3, TE=5, Sample=6 if q else 12, IvCodes="{0, 307}", MRTS4=10, TAU4=0)]
+    for r in runs:
+        _multi(ctx, r, ALL_FNS, [], ["multi_wf"], "every entry point on lists of degenerate trains: well-formed result", chunk=200)
+    ctx.assumptions += ["degenerate slice: trains with no spike, one spike (every grid position incl. both edges), spikes on both "
+                        "edges, identical trains; plus a sampled slice of ordinary trains"]
+    return ctx.finish(rule="lists of 2..4 degenerate trains x every public entry point x keyword setting x interval; "
+                           "structural check of the returned object + bivariate functions on every ordered pair of the list")
 
 
 import re as _re
